@@ -19,9 +19,9 @@ def run(ctx):
     ctx.assumptions += ["pool guarantees towards Votor (C06): safe-to-notar/skip only after the own vote",
                         "set_timeouts (timer arming) is modelled but not observed in the Votor replay"]
     if ctx.tier == "quick":
-        V.run_model(ctx, "w0", W0, 7, 7, sample=110000,
+        V.run_model(ctx, "w0", W0, 7, 7, sample=80000,
                     witnesses=["W_Final", "W_Nf", "W_Sf"])
-        V.run_model(ctx, "handover", HANDOVER, 7, 7, sample=110000,
+        V.run_model(ctx, "handover", HANDOVER, 7, 7, sample=80000,
                     witnesses=["W_Pruned", "W_NotarSecondWindow"])
     else:
         V.run_model(ctx, "w0", W0, 7, 10, sample=2500000, witnesses=["W_Final", "W_Nf", "W_Sf"])
@@ -30,7 +30,7 @@ def run(ctx):
     # the composition Pool + Votor (consensus.rs wiring): the rules hold without assumptions about the pool,
     # and the real pair takes exactly the spec's transitions
     ND.run_model(ctx, "node_w0", ND.W0["stakes"], ND.W0["own"], ND.W0["max_slot"],
-                 9 if ctx.tier == "quick" else 12, ND.W0["d"],
-                 sample=(120000 if ctx.tier == "quick" else 1500000), witnesses=["W_Final"])
+                 8 if ctx.tier == "quick" else 13, ND.W0["d"],
+                 sample=(70000 if ctx.tier == "quick" else 1500000), witnesses=["W_Final"])
     return ctx.finish(rule="every (votor state, event) pair of the model is one case; events: pool events, "
                            "blockstore events (several blocks per slot, children before parents), timeouts")
